@@ -51,10 +51,18 @@ type vHBase struct {
 
 var vErrApp = errors.New("verif: application error")
 
+// regionOf uses the server's own copy of the boundaries (the client must not be able to
+// change the cluster layout by writing into a RegionInfo it was handed).
 func (h *vHBase) regionOf(key []byte) int {
 	for i := range h.regs {
-		if bytes.Compare(key, h.regs[i].StartKey()) >= 0 &&
-			(len(h.regs[i].StopKey()) == 0 || bytes.Compare(key, h.regs[i].StopKey()) < 0) {
+		var start, stop []byte
+		if i > 0 {
+			start = h.bounds[i-1]
+		}
+		if i < len(h.bounds) {
+			stop = h.bounds[i]
+		}
+		if bytes.Compare(key, start) >= 0 && (len(stop) == 0 || bytes.Compare(key, stop) < 0) {
 			return i
 		}
 	}
@@ -221,7 +229,13 @@ func vCluster() *vHBase {
 	nrows := verifParam("ROWS")
 	var prev []byte
 	for i := 0; i < nrows; i++ {
-		k := verifBytesN(1)
+		var k []byte
+		if kl := verifParam("KEYL"); kl == 1 {
+			k = verifBytesN(1)
+		} else {
+			k = verifBytes(kl)
+			verifAssume(len(k) > 0)
+		}
 		if prev != nil {
 			verifAssume(bytes.Compare(prev, k) < 0)
 		}
@@ -239,6 +253,7 @@ func vCluster() *vHBase {
 		if i < nreg-1 {
 			stop = verifBytesN(1)
 			verifAssume(bytes.Compare(start, stop) < 0)
+			h.bounds = append(h.bounds, append([]byte{}, stop...))
 		}
 		h.regs = append(h.regs, vMkRegion(0, uint64(i+1), start, stop))
 		start = stop
@@ -328,4 +343,64 @@ func VerifScan() {
 	}
 	verifAssert(len(h.open) == 0, "no region scanner is left open on a server")
 	verifReach("scanned")
+}
+
+// VerifScanEndings (C14): a scan ended at any point — exhausted, closed early, failed on any
+// request, cancelled — reports its error once and io.EOF from then on, Close is idempotent, and
+// every region scanner opened on the server has been exhausted or explicitly closed.
+func VerifScanEndings() {
+	h := vCluster()
+	reversed := verifParam("REVERSED") == 1
+	start := verifBytesN(1)
+	var stop []byte
+	ctx, cancel := context.WithCancel(context.Background())
+	sc := newScanner(h, vNewScan(ctx, start, stop, reversed, false), vLogger())
+
+	ending := verifInt(0, 3)
+	at := verifInt(0, 3) // Next calls before the ending event (close / cancel), or failing request - 1
+	if ending == 1 {
+		h.failAt = at + 1
+	}
+	errs := 0
+	eof := false
+	for i := 0; i < 8 && !eof; i++ {
+		if i == at && ending == 0 {
+			verifAssert(sc.Close() == nil, "Close succeeds")
+			verifReach("closed-early")
+		}
+		if i == at && ending == 2 {
+			cancel()
+			verifReach("cancelled")
+		}
+		r, err := sc.Next()
+		switch {
+		case err == io.EOF:
+			eof = true
+			verifAssert(r == nil, "end of scan carries no row")
+		case err != nil:
+			errs++
+			verifAssert(errs == 1, "an error or a cancellation is reported once, end-of-scan from then on")
+			if ending == 1 {
+				verifAssert(err == vErrApp, "the request's error is returned unchanged")
+				verifReach("failed")
+			} else {
+				verifAssert(ending == 2 && err == context.Canceled, "only a cancelled scan reports the context error")
+			}
+		default:
+			verifAssert(r != nil && len(r.Cells) > 0, "every result carries cells")
+		}
+	}
+	verifAssert(eof, "the scan reaches end-of-scan")
+	for i := 0; i < 2; i++ {
+		r, err := sc.Next()
+		verifAssert(err == io.EOF && r == nil, "end-of-scan is final")
+	}
+	verifAssert(sc.Close() == nil && sc.Close() == nil, "Close is idempotent")
+	cancel()
+	verifQuiesce()
+	verifAssert(h.badUse == "" || h.badUse == "request for a scanner that is not open", "protocol use: "+h.badUse)
+	verifAssert(len(h.open) == 0, "every region scanner opened on a server was exhausted or explicitly closed")
+	verifObserveInt("opened", h.opened)
+	verifObserveInt("closes", h.closes)
+	verifReach("ended")
 }
